@@ -11,15 +11,13 @@ use std::time::Duration;
 
 static NEXT_PORT: AtomicU16 = AtomicU16::new(0);
 
-/// a TCP port that is free right now (for the embedded debug adapter)
+/// a TCP port that is free right now (for the embedded debug adapter). Below the ephemeral range: a client that keeps
+/// trying to connect to a port nobody listens on yet can otherwise end up connected to itself (TCP simultaneous open
+/// when the kernel happens to pick that very port as the source port).
 pub fn free_port() -> u16 {
     loop {
-        let base = 21000 + (std::process::id() % 300) as u16 * 100;
-        let n = NEXT_PORT.fetch_add(1, Ordering::SeqCst);
-        let port = base.wrapping_add(n % 20000);
-        if port < 1024 {
-            continue;
-        }
+        let n = NEXT_PORT.fetch_add(1, Ordering::SeqCst) as u32;
+        let port = 10_000 + (((std::process::id() % 97) * 211 + n) % 22_000) as u16;
         if std::net::TcpListener::bind(("127.0.0.1", port)).is_ok() {
             return port;
         }
